@@ -86,6 +86,7 @@ func (f *verifFaultFile) Close() error {
 // bytes of the piece's length) on a torrent whose download file handle fails
 // one symbolic operation once.
 func VerifTorrentWriteWithIOFault() {
+	verif.Option("panic_is_violation", 1)
 	n, plen := 2, 1
 	if verif.Bound("short_last_piece_shape", 0, 1) == 1 && verif.Bool("other_shape") {
 		n, plen = 3, 2
